@@ -36,7 +36,7 @@ pub fn ifaces_of(lans: &[Lan]) -> Vec<Iface> {
             mac: l.mac,
             mtu: l.mtu,
             v4: vec![(l.server_ip, l.plen)],
-            v6: vec![(Ipv6Addr::new(0xfe80, 0, 0, 0, 0, 0, 0, l.ifidx as u16), 64)],
+            v6: vec![(Ipv6Addr::new(0xfe80, 0, 0, 0, 0, 0, 0, l.ifidx as u16), 64), (lan_v6(l), 64)],
             multicast: true,
         });
     }
@@ -253,21 +253,129 @@ pub async fn run_async(plan: &PlanA, opts: &ExecOpts) -> RunResult {
         }
     }
 
-    let mut cfg_idx = 0usize;
-    let mut server = match boot(&ifaces, &plan.configs[0].yaml()).await {
-        Ok(s) => s,
-        Err(e) => {
-            res.harness_error = Some(format!("first boot failed: {} -- vfs calls {:?} -- config:\n{}", e, vfs::with_disk(|d| (d.call_names.clone(), d.files.keys().cloned().collect::<Vec<_>>())), plan.configs[0].yaml()));
-            erbium_net::sim::install(None);
+    let mut image_rows: Option<Vec<Row>> = None;
+    if let Some(img) = &plan.image {
+        let (rows, sql) = match img {
+            Image::V0 { rows, version_table, version_row } => {
+                let mut sql = String::from("CREATE TABLE leases (address TEXT NOT NULL, chaddr BLOB, clientid BLOB, start INTEGER NOT NULL, expiry INTEGER NOT NULL, PRIMARY KEY (address));");
+                if *version_table {
+                    sql.push_str("CREATE TABLE schema_version (key TEXT NOT NULL, version INTEGER NOT NULL, PRIMARY KEY (key));");
+                    if *version_row {
+                        sql.push_str("INSERT INTO schema_version VALUES ('pool', 0);");
+                    }
+                }
+                (rows, sql)
+            }
+            Image::Newer { version, rows } => (
+                rows,
+                format!(
+                    "CREATE TABLE schema_version (key TEXT NOT NULL, version INTEGER NOT NULL, PRIMARY KEY (key)); INSERT INTO schema_version VALUES ('pool', {});
+                     CREATE TABLE leases (address TEXT NOT NULL, chaddr BLOB, clientid BLOB, start INTEGER NOT NULL, expiry INTEGER NOT NULL, options BLOB, extra BLOB, PRIMARY KEY (address));",
+                    version
+                ),
+            ),
+        };
+        let mut sql = sql;
+        for r in rows {
+            sql.push_str(&format!(
+                "INSERT INTO leases (address, clientid, start, expiry) VALUES ('{}', {}, {}, {});",
+                r.address,
+                r.clientid.as_ref().map(|c| format!("x'{}'", hex(c))).unwrap_or("NULL".into()),
+                r.start,
+                r.expiry
+            ));
+        }
+        if let Err(e) = vfs::harness_sql(&sql) {
+            res.harness_error = Some(format!("image setup failed: {}", e));
             return res;
         }
+        let mut want: Vec<Row> = rows.iter().map(|r| Row { address: r.address.clone(), clientid: r.clientid.clone(), start: r.start, expiry: r.expiry, options: None }).collect();
+        want.sort();
+        image_rows = Some(want);
+        res.probe(match img {
+            Image::V0 { version_table: false, .. } => "C18.image_v0_without_version_table",
+            Image::V0 { version_row: false, .. } => "C18.image_v0_without_version_row",
+            Image::V0 { .. } => "C18.image_v0",
+            Image::Newer { .. } => "C18.image_newer_schema",
+        });
+    }
+    if let Some(k) = plan.crash_at_total {
+        vfs::with_disk(|d| d.crash_at = Some(k));
+    }
+    let files_before = vfs::with_disk(|d| d.files.clone());
+    let mut nontrivial_events = 0u64;
+    let mut cfg_idx = 0usize;
+    let newer = matches!(plan.image, Some(Image::Newer { .. }));
+    let mut server = match boot(&ifaces, &plan.configs[0].yaml()).await {
+        Ok(s) => {
+            if newer {
+                res.violate("C18", "C18.newer_schema_not_refused", format!("a database of schema {:?} was opened", plan.image), 0);
+            }
+            s
+        }
+        Err(e) => {
+            if vfs::with_disk(|d| d.dead) {
+                /* killed during first boot (schema creation or upgrade) */
+                *res.faults.entry("process_kill".into()).or_insert(0) += 1;
+                let names = vfs::with_disk(|d| d.call_names.clone());
+                res.probe("C18.crash_during_boot");
+                kernel.kill_process();
+                let image = vfs::with_disk(|d| d.crash_image.clone());
+                vfs::with_disk(|d| d.reboot(image));
+                match boot(&ifaces, &plan.configs[0].yaml()).await {
+                    Ok(s) => {
+                        nontrivial_events += 1;
+                        s
+                    }
+                    Err(e2) => {
+                        res.violate(
+                            "C18",
+                            "C18.reopen_failed_after_kill_during_boot",
+                            format!("killed before disk call #{} ({:?}, after {:?}) of the first boot; the store can never be opened again: {}", names.len(), names.last(), names.iter().rev().skip(1).take(3).collect::<Vec<_>>(), e2),
+                            0,
+                        );
+                        erbium_net::sim::install(None);
+                        return finish(res, &kernel, t0, 1);
+                    }
+                }
+            } else if newer {
+                let files_after = vfs::with_disk(|d| d.files.clone());
+                if files_after != files_before {
+                    res.violate("C18", "C18.newer_schema_modified", format!("a database of a newer schema was refused ({}) but its files changed", e), 0);
+                }
+                res.probe("C18.newer_schema_refused");
+                erbium_net::sim::install(None);
+                return finish(res, &kernel, t0, 1);
+            } else {
+                res.harness_error = Some(format!("first boot failed: {} -- vfs calls {:?} -- config:\n{}", e, vfs::with_disk(|d| (d.call_names.clone(), d.files.keys().cloned().collect::<Vec<_>>())), plan.configs[0].yaml()));
+                erbium_net::sim::install(None);
+                return res;
+            }
+        }
     };
+    if let Some(want) = &image_rows {
+        if !newer {
+            match vfs::read_rows() {
+                Ok((rows, ver)) => {
+                    let mut got: Vec<Row> = rows.iter().map(|r| Row { options: None, ..r.clone() }).collect();
+                    got.sort();
+                    nontrivial_events += 1;
+                    if &got != want {
+                        res.violate("C18", "C18.rows_not_preserved_by_upgrade", format!("image rows {:?} after opening {:?}", want, got), 0);
+                    }
+                    if ver != Some(1) {
+                        res.violate("C18", "C18.upgrade_left_wrong_version", format!("schema_version is {:?} after opening an old image", ver), 0);
+                    }
+                }
+                Err(e) => res.violate("C18", "C18.store_unreadable_after_upgrade", e, 0),
+            }
+        }
+    }
     tokio::time::sleep(Duration::from_millis(1)).await;
 
     let mut cstate: Vec<ClientState> = vec![ClientState::default(); plan.clients.len()];
     let mut holders: HashMap<Ipv4Addr, Holder> = HashMap::new();
     let mut ids_used: BTreeSet<Ipv4Addr> = BTreeSet::new();
-    let mut nontrivial_events = 0u64;
     let mut handed: BTreeSet<u32> = BTreeSet::new();
     let mut refused_tail = 0usize; /* consecutive unanswered DISCOVERs at the end (drain shape) */
 
@@ -287,11 +395,13 @@ pub async fn run_async(plan: &PlanA, opts: &ExecOpts) -> RunResult {
         let mut dhcp_steps: Vec<(usize, &MsgSpec)> = vec![];
         let mut raw_steps: Vec<(usize, usize, &Vec<u8>)> = vec![];
         let mut http_steps: Vec<(usize, &String, &HttpVia)> = vec![];
+        let mut acl_steps: Vec<(usize, &String, &String, &String)> = vec![];
         for (si, st) in &group {
             match &st.kind {
                 StepKind::Dhcp(m) => dhcp_steps.push((*si, m)),
                 StepKind::Raw { lan, data } => raw_steps.push((*si, *lan, data)),
                 StepKind::Http { path, via, .. } => http_steps.push((*si, path, via)),
+                StepKind::AclHttp { path, from, to } => acl_steps.push((*si, path, from, to)),
                 StepKind::ClockJump(d) => {
                     crate::interpose::add_skew_secs(*d);
                     res.probe(if *d < 0 { "clock.backward_step" } else { "clock.forward_jump" });
@@ -500,6 +610,14 @@ pub async fn run_async(plan: &PlanA, opts: &ExecOpts) -> RunResult {
             let mtype = s.spec.mtype;
             if mtype == Some(1) {
                 refused_tail = if replied { 0 } else { refused_tail + 1 };
+            }
+            {
+                let mut d: Vec<String> = mine.iter().map(|r| match &r.msg {
+                    Some(m) => format!("type={:?} yiaddr={} lease={:?} sid={:?}", m.msg_type(), m.yiaddr, m.opt_u32(51), m.opt_ip(54)),
+                    None => "undecodable".into(),
+                }).collect();
+                d.sort();
+                res.digest.push(format!("xid {:#x}: {}", s.msg.xid, if d.is_empty() { "no reply".to_string() } else { d.join(" | ") }));
             }
             if s.spec.must_answer {
                 res.probe("C05.liveness_probe_after_hostile_input");
@@ -855,6 +973,76 @@ pub async fn run_async(plan: &PlanA, opts: &ExecOpts) -> RunResult {
             }
         }
 
+        // ---- ACL steps (C08, HTTP half)
+        for (si, path, from, to) in &acl_steps {
+            let parse = |x: &str| -> (Addr, crate::acl_model::ClientAddr) {
+                if let Some(u) = x.strip_prefix("unix:") {
+                    let name = if u == "unnamed" {
+                        UnixName::Unnamed
+                    } else if let Some(a) = u.strip_prefix('@') {
+                        UnixName::Abstract(a.as_bytes().to_vec())
+                    } else {
+                        UnixName::Path(u.as_bytes().to_vec())
+                    };
+                    (Addr::Unix(name), crate::acl_model::ClientAddr::Unix)
+                } else {
+                    let sa: SocketAddr = x.parse().unwrap();
+                    (Addr::Inet(sa), crate::acl_model::ClientAddr::Ip(sa.ip()))
+                }
+            };
+            let (from_a, client) = parse(from);
+            let (to_a, _) = parse(to);
+            let perm = match path.as_str() {
+                "/" => "http",
+                "/metrics" => "http-metrics",
+                _ => "http-leases",
+            };
+            let rules: Vec<AclM> = match &conf.acls {
+                Some(a) => a.clone(),
+                None => vec![
+                    AclM { subnets: Some(conf.addresses.iter().map(|(a, l)| format!("{}/{}", a, l)).collect()), unix: None, access: vec!["dns-recursion".into(), "http-ro".into()] },
+                    AclM { subnets: Some(vec!["127.0.0.0/8".into(), "::1/128".into()]), unix: None, access: vec!["dns-recursion".into(), "http-ro".into()] },
+                    AclM { subnets: None, unix: Some(true), access: vec!["http-ro".into()] },
+                ],
+            };
+            if conf.acls.is_none() && perm == "http" {
+                /* the manual and the built-in default disagree on whether http-ro includes
+                 * the root page; documented-silent, not judged */
+                continue;
+            }
+            let Some(want) = crate::acl_model::granted_opt(&rules, &client, perm) else {
+                res.probe("C08.outcome_not_settled_by_manual");
+                continue;
+            };
+            let reply = http_get(&kernel, from_a, to_a, path).await;
+            for (loc, msg) in crate::common::take_panics() {
+                res.violate("C08", &format!("C08.panic_serving_api@{}", loc), format!("{} from {}: {}", path, from, msg), *si);
+            }
+            res.probe(if want { "C08.http_request_that_must_be_granted" } else { "C08.http_request_that_must_be_refused" });
+            if client == crate::acl_model::ClientAddr::Unix {
+                res.probe("C08.http_over_unix_socket");
+            } else if to.starts_with("[") == false && conf.api_listeners.iter().any(|l| l == "[::]:9968") {
+                res.probe("C08.ipv4_client_on_dual_stack_listener");
+            }
+            match reply {
+                Err(e) => res.violate("C08", "C08.no_http_response", format!("GET {} from {} to {}: {}", path, from, to, e), *si),
+                Ok(rep) => {
+                    nontrivial_events += 1;
+                    let got = rep.status == 200;
+                    if rep.status != 200 && rep.status != 403 {
+                        res.violate("C08", "C08.unexpected_http_status", format!("GET {} from {}: status {}", path, from, rep.status), *si);
+                    } else if got != want {
+                        res.violate(
+                            "C08",
+                            &format!("C08.{}.{}", if got { "granted_but_must_be_refused" } else { "refused_but_must_be_granted" }, perm),
+                            format!("GET {} from {} (to {}): status {}; first-match evaluation of the ACLs says {}; acls: {:?}", path, from, to, rep.status, if want { "grant" } else { "refuse" }, rules),
+                            *si,
+                        );
+                    }
+                }
+            }
+        }
+
         if crashed {
             /* crash recovery: the page cache survives a process kill */
             *res.faults.entry("process_kill".into()).or_insert(0) += 1;
@@ -938,6 +1126,13 @@ pub async fn run_async(plan: &PlanA, opts: &ExecOpts) -> RunResult {
             res.observations.push(format!("drain did not exhaust the pool ({} of {} leased)", handed.len(), d.len()));
         }
     }
+    if let Ok((rows, _)) = vfs::read_rows() {
+        if rows.len() <= 64 {
+            for r in rows {
+                res.digest.push(format!("row {} client={} start={} expiry={}", r.address, hex(r.clientid.as_deref().unwrap_or(&[])), r.start, r.expiry));
+            }
+        }
+    }
     res.steps = plan.steps.len();
     server.abort();
     erbium_net::sim::install(None);
@@ -957,6 +1152,7 @@ fn finish(mut res: RunResult, kernel: &Arc<Kernel>, t0: tokio::time::Instant, no
         }
         res.trace = k.log.trace.take();
     });
+    res.disk_calls = vfs::with_disk(|d| d.total_calls);
     res.sim_ms = tokio::time::Instant::now().saturating_duration_since(t0).as_millis() as u64;
     res.nontrivial = nontrivial_events > 0;
     if let Some(p) = vfs::with_disk(|d| d.harness_panic.take()) {
@@ -1029,9 +1225,35 @@ fn check_gauges(res: &mut RunResult, body: &[u8], rows: &[Row], now: i64, step: 
     }
 }
 
-pub fn run_plan(plan: &PlanA, opts: &ExecOpts) -> RunResult {
+fn run_once(plan: &PlanA, opts: &ExecOpts) -> RunResult {
     let rt = tokio::runtime::Builder::new_current_thread().enable_time().start_paused(true).build().unwrap();
     let r = rt.block_on(run_async(plan, opts));
     drop(rt);
     r
+}
+
+pub fn run_plan(plan: &PlanA, opts: &ExecOpts) -> RunResult {
+    let Some(split) = plan.pair_split else {
+        return run_once(plan, opts);
+    };
+    /* restart equivalence: the same history with and without a clean restart
+     * between two instants must produce the same replies and the same store */
+    let mut a = run_once(plan, opts);
+    let mut with = plan.clone();
+    let at = (plan.steps[split - 1].at_ms + plan.steps[split].at_ms) / 2;
+    with.steps.insert(split, Step { at_ms: at, kind: StepKind::Restart { cfg: 0 } });
+    let b = run_once(&with, opts);
+    a.probe("C18.restart_pair_compared");
+    if a.harness_error.is_none() && b.harness_error.is_none() && a.digest != b.digest {
+        let diff = a.digest.iter().zip(b.digest.iter()).find(|(x, y)| x != y).map(|(x, y)| format!("uninterrupted: [{}]  restarted: [{}]", x, y)).unwrap_or_else(|| format!("{} vs {} entries", a.digest.len(), b.digest.len()));
+        a.violate("C18", "C18.restart_changes_behaviour", format!("a clean restart before step {} changes what clients see: {}", split, diff), split);
+    }
+    for v in b.violations {
+        if !a.violations.iter().any(|x| x.kind == v.kind) {
+            a.violations.push(v);
+        }
+    }
+    a.events += b.events;
+    a.event_hash = format!("{}+{}", a.event_hash, b.event_hash);
+    a
 }
